@@ -11,6 +11,6 @@ PROPS["C12"] = dict(
     rule="case = random ownership program; distinct = distinct program text; every program is checked after each step",
     floors=dict(any={"distinct": 15000, "forest_checks": 250000, "deep_equality_checks": 50000, "op:copy-assign-shorter-over-longer": 1000, "op:copy-assign-longer-over-shorter": 1000,
                      "op:self-assign": 2500, "op:move-assign": 2500, "op:move-construct": 2500, "op:release": 2500, "op:inner_pdu-ptr": 2500, "op:packet-wrap": 2500,
-                     "option:self-assign": 1000, "option:spoofed-length-field": 5000, "op:clone-inner-layer": 2000, "op:packet-assign-from-empty": 500, "typed_classes": 45}),
+                     "option:self-assign": 1000, "option:spoofed-length-field": 5000, "op:clone-inner-layer": 2000, "op:inner_pdu-ref-own-tree": 1500, "op:packet-assign-from-empty": 500, "typed_classes": 45}),
     assumptions=["x86-64", "programs never self-move and never hand one heap PDU to two owners (that would be a user error, not a libtins defect)"],
 )
